@@ -556,7 +556,7 @@ def shrink_main(path, out):
     from sim import shrink
     with open(path) as f:
         d = json.load(f)
-    spec, n_exec = shrink.minimise(d["spec"], d["property"], d["expect_sig"], _exec_spec, budget_s=300)
+    spec, n_exec = shrink.minimise(d["spec"], d["property"], d["expect_sig"], _exec_spec, budget_s=int(os.environ.get("VERIF_SHRINK_S", "300")))
     d["spec"] = spec
     d["minimised"] = True
     d["shrink_executions"] = n_exec
